@@ -36,6 +36,7 @@ type Plan struct {
 	Gaps     []int `json:"gaps"`            // ms before each item
 	EndGap   int   `json:"endgap,omitempty"`
 	EndErr   bool  `json:"enderr,omitempty"`
+	ErrKind  int   `json:"errkind,omitempty"` // 0 plain sentinel, 1 wraps context.Canceled, 2 wraps context.DeadlineExceeded
 	Deaf     bool  `json:"deaf,omitempty"` // the source ignores its context and never ends (it keeps answering)
 	Consumer []COp `json:"consumer"`
 }
@@ -55,6 +56,7 @@ func genPlan(t *rapid.T) Plan {
 	}
 	p.EndGap = rapid.SampledFrom(gapChoices).Draw(t, "endgap")
 	p.EndErr = rapid.IntRange(0, 3).Draw(t, "enderr") == 0
+	p.ErrKind = rapid.IntRange(0, 2).Draw(t, "errkind")
 	m := rapid.IntRange(0, 25).Draw(t, "m")
 	for i := 0; i < m; i++ {
 		o := COp{Op: rapid.SampledFrom([]string{"next", "next", "next", "next", "sleep", "sleep"}).Draw(t, "op")}
@@ -122,6 +124,12 @@ func script(p Plan, out *vk.Outcome) error {
 	src.Gaps = gaps
 	src.EndGap = time.Duration(p.EndGap) * time.Millisecond
 	E := sk.NewSentinel("E")
+	switch p.ErrKind { // a source may fail, for reasons of its own, with an error that wraps a context error
+	case 1:
+		E = fmt.Errorf("source: upstream call failed: %w", context.Canceled)
+	case 2:
+		E = fmt.Errorf("source: upstream call failed: %w", context.DeadlineExceeded)
+	}
 	if p.EndErr {
 		src.FinalAt, src.Final = n, E
 	}
@@ -153,6 +161,7 @@ func script(p Plan, out *vk.Outcome) error {
 		s = stream.Batch[int](src, maxWait, p.Size)
 	}
 	var recs []nextRec
+	var lastDelivery time.Time
 	delivered := 0
 	var final error
 	closed := false
@@ -186,6 +195,10 @@ func script(p Plan, out *vk.Outcome) error {
 		recs = append(recs, r)
 		what := fmt.Sprintf("Next #%d (called at +%v, timeout %v, returned at +%v)", len(recs), r.tc.Sub(recs[0].tc), timeout, r.T.Sub(recs[0].tc))
 		if err != nil {
+			if p.EndErr && errors.Is(err, E) { // the source's own error (it may itself wrap a context error)
+				final = err
+				return nil
+			}
 			if timeout > 0 && errors.Is(err, context.DeadlineExceeded) {
 				if r.T.Sub(r.tc) < timeout {
 					return vk.Violf("ctx", "%s: returned the context's error before its deadline", what)
@@ -229,14 +242,22 @@ func script(p Plan, out *vk.Outcome) error {
 		}
 		// clause 4: not held back (zero-latency predicate, live context throughout)
 		if p.FullLat == 0 && (timeout == 0 || r.T.Sub(r.tc) < timeout) {
-			from := r.tc
-			if h.After(from) {
-				from = h
+			// arrival of the oldest item at the batcher: when the source handed it over, or - if the batcher was
+			// then still blocked handing the previous batch to the consumer - when that batch was taken
+			arrival := h
+			if lastDelivery.After(arrival) {
+				arrival = lastDelivery
 			}
-			if r.T.Sub(from) > maxWait {
-				return vk.Violf("held-back", "%s: batch %v handed out %v after max(call, arrival of its oldest item), more than maxWait", what, b, r.T.Sub(from))
+			due := arrival.Add(maxWait) // from then on a waiting consumer must get it
+			if r.tc.After(due) {
+				due = r.tc
+			}
+			if r.T.After(due) {
+				return vk.Violf("held-back", "%s: batch %v handed out %v after it was due (oldest item arrived at +%v, maxWait %v, consumer waiting since +%v)",
+					what, b, r.T.Sub(due), arrival.Sub(recs[0].tc), maxWait, r.tc.Sub(recs[0].tc))
 			}
 		}
+		lastDelivery = r.T
 		return nil
 	}
 
